@@ -32,9 +32,6 @@ NOT_BUILT = {
  "C01": "contract designed (DESIGN section 4) but the lazy-initialisation front end that discharges the rule contracts is not built yet",
  "C02": "contract designed (DESIGN section 4); depends on the C01 machinery, not built yet",
  "C04": "contract designed (DESIGN section 4); the C front end (clang JSON AST interpreter) is not built",
- "C05": "contract designed (DESIGN section 4); template family + SPEC not built yet",
- "C06": "contract designed (DESIGN section 4); template family + SPEC not built yet",
- "C07": "contract designed (DESIGN section 4); template family + SPEC not built yet",
  "C08": "contract designed (DESIGN section 4); not built yet",
  "C09": "contract designed (DESIGN section 4); lazy initialisation not built yet",
  "C10": "contract designed (DESIGN section 4); not built yet",
